@@ -1431,6 +1431,53 @@ impl PeerConnection {
             None
         };
 
+        // Validate the state transition and the DTLS identity before anything is
+        // applied, so a description that is refused leaves the signaling state, the
+        // stored descriptions and every transceiver exactly as they were.
+        let next_state = {
+            let state = *self.inner.signaling_state.borrow();
+            match desc.sdp_type {
+                SdpType::Offer => {
+                    if state != SignalingState::Stable {
+                        return Err(RtcError::InvalidState(
+                            "set_remote_description(offer) requires stable signaling state".into(),
+                        ));
+                    }
+                    Some(SignalingState::HaveRemoteOffer)
+                }
+                SdpType::Answer => {
+                    if state != SignalingState::HaveLocalOffer {
+                        return Err(RtcError::InvalidState(
+                            "set_remote_description(answer) requires local offer".into(),
+                        ));
+                    }
+                    Some(SignalingState::Stable)
+                }
+                SdpType::Pranswer => {
+                    // Provisional answer (SIP 183 early media): set up media transport like an
+                    // answer but keep signaling state in HaveLocalOffer so the final 200 OK
+                    // answer can still arrive and complete the negotiation.
+                    if state != SignalingState::HaveLocalOffer {
+                        return Err(RtcError::InvalidState(
+                            "set_remote_description(pranswer) requires local offer".into(),
+                        ));
+                    }
+                    // Do NOT transition to Stable – stay in HaveLocalOffer.
+                    None
+                }
+                SdpType::Rollback => {
+                    return Err(RtcError::NotImplemented("rollback"));
+                }
+            }
+        };
+        if self.inner.dtls_transport.lock().is_some()
+            && *self.inner.remote_dtls_fingerprint.lock() != remote_dtls_fingerprint
+        {
+            return Err(RtcError::InvalidState(
+                "changing remote DTLS fingerprint after transport start is not supported".into(),
+            ));
+        }
+
         let previous_remote = self.inner.remote_description.lock().clone();
         let media_parameters_changed = previous_remote.as_ref().is_none_or(|previous| {
             previous.session.connection != desc.session.connection
@@ -1470,40 +1517,8 @@ impl PeerConnection {
             }
         }
 
-        {
-            let state = &self.inner.signaling_state;
-            match desc.sdp_type {
-                SdpType::Offer => {
-                    if *state.borrow() != SignalingState::Stable {
-                        return Err(RtcError::InvalidState(
-                            "set_remote_description(offer) requires stable signaling state".into(),
-                        ));
-                    }
-                    let _ = state.send(SignalingState::HaveRemoteOffer);
-                }
-                SdpType::Answer => {
-                    if *state.borrow() != SignalingState::HaveLocalOffer {
-                        return Err(RtcError::InvalidState(
-                            "set_remote_description(answer) requires local offer".into(),
-                        ));
-                    }
-                    let _ = state.send(SignalingState::Stable);
-                }
-                SdpType::Pranswer => {
-                    // Provisional answer (SIP 183 early media): set up media transport like an
-                    // answer but keep signaling state in HaveLocalOffer so the final 200 OK
-                    // answer can still arrive and complete the negotiation.
-                    if *state.borrow() != SignalingState::HaveLocalOffer {
-                        return Err(RtcError::InvalidState(
-                            "set_remote_description(pranswer) requires local offer".into(),
-                        ));
-                    }
-                    // Do NOT transition to Stable – stay in HaveLocalOffer.
-                }
-                SdpType::Rollback => {
-                    return Err(RtcError::NotImplemented("rollback"));
-                }
-            }
+        if let Some(next) = next_state {
+            let _ = self.inner.signaling_state.send(next);
         }
 
         if previous_remote.is_some() && !media_parameters_changed {
